@@ -10,7 +10,9 @@ def run(cmd, **kw):
 res = {"seed_dir": sd}
 run(["git", "-C", wt, "checkout", "--", "."])
 r = run(["/venv/bin/python", f"{sd}/demo.py"], cwd=wt, env=env); res["demo_clean_rc"] = r.returncode
-a = run(["git", "-C", wt, "apply", f"{sd}/patch.diff"]); res["applies"] = a.returncode == 0
+pf = f"{sd}/patch_current.diff" if os.path.exists(f"{sd}/patch_current.diff") else f"{sd}/patch.diff"
+res["patch_file"] = os.path.basename(pf)
+a = run(["patch", "-p1", "-s", "-F0", "--no-backup-if-mismatch", "-i", pf], cwd=wt); res["applies"] = a.returncode == 0
 if res["applies"]:
     r = run(["/venv/bin/python", f"{sd}/demo.py"], cwd=wt, env=env); res["demo_patched_rc"] = r.returncode
     res["demo_patched_tail"] = (r.stdout + r.stderr)[-400:]
